@@ -1407,6 +1407,140 @@ def run_super_errors(ctx):
 
 
 # ---------------------------------------------------------------------------------------------
+# evaluate_supersampled: the statistics 'mean' | 'sum' | 'min' | 'max' on separated grids (model: supersampledStat)
+
+SUPER_STATS = ('mean', 'sum', 'min', 'max')
+SUPER_STAT_FAMILIES = ('regular', 'regular-xdesc', 'regular-reversed', 'regular-scaled-x', 'sep-asc', 'sep-desc', 'sep-mixed',
+                       'sep-permuted', 'sep-repeated', 'alias-sep', 'alias-regular', 'size1-x')
+SUPER_STAT_CORPUS = [
+    (['regular', [5, 4], [0.5, 0.75], [-1.0, -1.125]], ['circle', 1.5, [0.25, 0.0]], [2, 3]),
+    (['sep', [1.75, 1.0, 0.5, 0.0, -0.5, -1.25], [-1.5, -0.375, 0.0, 0.375, 1.25]], ['regpoly', 6, 1.75, 0.25, None], 2),
+    (['sep', [-1.0, 0.0, 0.0, 1.5], [0.5, -0.5, 0.25]], ['segmented', ['regpoly', 6, 0.875, 0.0, None], [[0.0, 0.0], [0.75, 0.0]], [0.25, 0.5]], [3, 1]),
+    (['regular', [4, 4], [0.5, 0.5], [-0.75, -0.75]], ['obstructed', 2.0, 0.25, 3, 0.125], [1, 1]),
+    (['regular', [4, 3], [0.5, 0.5], [-0.75, -0.5]], ['rect', [1.0, 0.5], None], [0, 2]),
+    (['sep', [0.5], [0.0, 1.0]], ['circle', 1.5, None], 2),
+]
+
+
+def super_stat_case(ctx, gspec, sspec, over, want_model=True):
+    """evaluate_supersampled(gen, grid, over, statistic=...) for all four statistics on the regular / separated
+    representation.  Oracle on the real code alone: attached to the grid, regular == separated, min <= mean <= max,
+    sum == mean * number of dithers, 'min'/'max' take only values the plain evaluation can take (0/1 or a transmission),
+    mean/min/max of a binary aperture in [0,1], the statistic does not change whether the call fails (which exception it
+    raises is compared with the model only).
+    -> (request lines, check(out))"""
+    import hcipy
+    reps, xs, ys, sep = make_reps(gspec)
+    gen, toks, size, binary = build(sspec)
+    label = root_kind(sspec)
+    case = {'kind': 'super-stat', 'grid': gspec, 'shape': sspec, 'over': over}
+    ov = (np.round(over) * np.ones(2)).astype(int)
+    allowed = None if transmissions(sspec) is None else sorted(set(transmissions(sspec)) | {0.0, 1.0})
+    real = {}
+    for name in ('regular', 'separated'):
+        g = reps.get(name)
+        if g is None or sep is None:
+            continue
+        for st in SUPER_STATS:
+            try:
+                with warnings.catch_warnings():
+                    warnings.simplefilter('ignore')
+                    f = hcipy.evaluate_supersampled(gen, g, over, statistic=st)
+                real[name, st] = ('ok', np.array(f, float).ravel())
+                if f.grid is not g:
+                    ctx.violation('%s:super-not-attached:%s' % (label, st), "evaluate_supersampled(..., statistic=%r) is not attached to the %s grid" % (st, name), case)
+            except Exception as e:                              # noqa
+                real[name, st] = ('err', type(e).__name__)
+        kinds = {st: real[name, st][0] if real[name, st][0] == 'ok' else real[name, st][1] for st in SUPER_STATS}
+        if len(set(k == 'ok' for k in kinds.values())) != 1:
+            ctx.violation('%s:super-stat:definedness' % label, 'the statistic changes whether evaluate_supersampled is defined on a %s grid: %r' % (name, kinds), case)
+            continue
+        if real[name, 'mean'][0] != 'ok':
+            # which exception: not part of the property; the model says which (supersampled_statistic_error_kinds)
+            ctx.count('super-stat:' + '/'.join(kinds[st] for st in SUPER_STATS))
+            continue
+        mean, sm, mn, mx = (real[name, st][1] for st in SUPER_STATS)
+        nd = int(ov[0] * ov[1])
+        tolv = 1e-9 * max(1.0, nd)
+        if (mn > mean + tolv).any() or (mean > mx + tolv).any():
+            i = int(np.flatnonzero((mn > mean + tolv) | (mean > mx + tolv))[0])
+            ctx.violation('%s:super-stat:order' % label, 'min <= mean <= max fails on a %s grid at pixel %d: %r %r %r' % (name, i, mn[i], mean[i], mx[i]), case)
+        if np.abs(sm - mean * nd).max() > tolv:
+            ctx.violation('%s:super-stat:sum' % label, "'sum' differs from 'mean' times the %d dithers on a %s grid (max %g)" % (nd, name, np.abs(sm - mean * nd).max()), case)
+        if allowed is not None:
+            for st, v in (('min', mn), ('max', mx)):
+                badv = [float(t) for t in v if min(abs(t - a) for a in allowed) > 1e-12]
+                if badv:
+                    ctx.violation('%s:super-stat:%s-value' % (label, st), "'%s' returns %r, not a value of the aperture (%r), on a %s grid" % (st, badv[0], allowed, name), case)
+        if binary:
+            for st, v in (('mean', mean), ('min', mn), ('max', mx)):
+                if v.min() < -1e-12 or v.max() > 1 + 1e-12:
+                    ctx.violation('%s:super-range:%s' % (label, st), "supersampled '%s' leaves [0,1] on a %s grid: %r %r" % (st, name, v.min(), v.max()), case)
+        ctx.count('super-stat:ok')
+        ctx.count('super-stat-over:%dx%d' % (ov[0], ov[1]))
+    for st in SUPER_STATS:
+        a, b = real.get(('regular', st)), real.get(('separated', st))
+        if a is not None and b is not None and a[0] == b[0] == 'ok' and np.abs(a[1] - b[1]).max() > 1e-9:
+            ctx.violation('%s:super-differs:%s' % (label, st), "supersampled '%s' differs between the regular and the separated grid" % st, case)
+    ctx.case(None, ('super-stat', label, gspec[0], tuple(int(t) for t in ov), len(xs)) if any(v[0] == 'ok' and 0 < np.count_nonzero(v[1]) < len(v[1]) for v in real.values()) else None)
+    if not want_model or sep is None or ov.min() < 0 or not real:
+        return [], lambda out: None
+    tol = rat(REL_TOL * scale_of(xs, ys, size))
+    lines = ['C12 superstat %s %d %d %s %s %s %s' % (st, ov[0], ov[1], tol, rat_list(sep[0]), rat_list(sep[1]), ' '.join(toks)) for st in SUPER_STATS]
+    names = {'IndexError': 'err index', 'ZeroDivisionError': 'err zerodiv', 'AttributeError': 'err attribute'}
+
+    def check(out):
+        for st, resp in zip(SUPER_STATS, out):
+            parts = resp.split(' ')
+            for name in ('regular', 'separated'):
+                r = real.get((name, st))
+                if r is None:
+                    continue
+                ctx.traces_validated += 1
+                key = 'super-stat:%s:model:%s' % (st, name)
+                if r[0] == 'err':
+                    if names.get(r[1]) != resp:
+                        ctx.disagree('C12 superstat', {'case': case, 'statistic': st, 'impl': r[1], 'model': resp[:60]}, key=key)
+                    continue
+                if parts[0] != 'ok':
+                    ctx.disagree('C12 superstat', {'case': case, 'statistic': st, 'impl': 'ok', 'model': resp[:60]}, key=key)
+                    continue
+                mv, near = _rats(parts[1]), _bits(parts[2])
+                if len(mv) != len(r[1]):
+                    ctx.disagree('C12 superstat', {'case': case, 'statistic': st, 'detail': 'length', 'model': len(mv), 'impl': len(r[1])}, key=key)
+                    continue
+                for i in range(len(mv)):
+                    if near[i]:
+                        ctx.boundary_skipped += 1
+                        ctx.count('super-stat-boundary-skipped')
+                        continue
+                    ctx.count('super-stat-points-compared:' + st)
+                    if abs(mv[i] - r[1][i]) > 1e-9:
+                        ctx.disagree('C12 superstat', {'case': case, 'statistic': st, 'rep': name, 'index': i, 'model': mv[i], 'impl': float(r[1][i])}, key=key)
+                        break
+    return lines, check
+
+
+def run_super_stats(ctx):
+    cases = list(SUPER_STAT_CORPUS)
+    for _ in range(ctx.scale(16, 150)):
+        fam = str(ctx.rng.choice(SUPER_STAT_FAMILIES))
+        gspec = gen_grid_family(ctx.rng, fam, nmax=6)
+        sspec = gen_shape(ctx.rng)
+        r = ctx.rng.random()
+        over = int(ctx.rng.integers(1, 4)) if r < 0.4 else [int(ctx.rng.integers(1, 4)), int(ctx.rng.integers(1, 4))] if r < 0.9 else [int(ctx.rng.integers(0, 2)), int(ctx.rng.integers(0, 3))]
+        cases.append((gspec, sspec, over))
+    lines, checks = [], []
+    for gspec, sspec, over in cases:
+        l, chk = super_stat_case(ctx, gspec, sspec, over)
+        checks.append((len(lines), len(l), chk))
+        lines += l
+    out = ctx.model(lines)
+    for base, cnt, chk in checks:
+        chk(out[base:base + cnt])
+
+
+# ---------------------------------------------------------------------------------------------
 # negative diameters: outside the domain of the property; the model predicts what the code does (documented, not reported)
 
 def run_negative_diameter(ctx):
@@ -1549,6 +1683,7 @@ def run(ctx):
                 lines += l
     check_hexqr(ctx)
     run_super_errors(ctx)
+    run_super_stats(ctx)
     run_negative_diameter(ctx)
     out = ctx.model(lines)
     for base, cnt, chk in checks:
@@ -1632,6 +1767,8 @@ def replay(ctx, case):
         run_keck(ctx, case['kw'], case['gseed'], case['fam'])
     elif case.get('kind') == 'vlt':
         run_vlt(ctx, case['kw'], case['gseed'], case['fam'], case.get('nseg', 2))
+    elif case.get('kind') == 'super-stat':
+        super_stat_case(ctx, case['grid'], case['shape'], case['over'], want_model=False)
     elif case.get('kind') == 'pupil':
         run_pupil(ctx, case['name'], case['kw'], case['gseed'], case.get('over'), case.get('fam'), case.get('gspec_fixed'))
     else:
